@@ -118,6 +118,66 @@ mod verif_cex {
         v
     }
 
+    /// End-to-end inputs for B1/B2: a one-line modification is turned into a LineChange by the real
+    /// diff reader (`line_changes_from_diff` -> `line_diff`), then asked against a span of the new
+    /// line that consists of characters which do NOT occur in the old line - any correct
+    /// character diff must report those as changed, so the span must be hit.
+    fn pipeline_line_change(old_line: &str, new_line: &str) -> (String, LineChange) {
+        let diff = format!(
+            "diff --git a/f.py b/f.py\nindex 1111111..2222222 100644\n--- a/f.py\n+++ b/f.py\n@@ -1 +1 @@\n-{old_line}\n+{new_line}\n"
+        );
+        let mut map = crate::diff_parser::line_changes_from_diff(&diff).unwrap();
+        let mut lcs = map.remove(&PathBuf::from("f.py")).unwrap();
+        assert_eq!(lcs.len(), 1);
+        (diff, lcs.remove(0))
+    }
+
+    const PIPELINE_PAIRS: [(&str, &str); 9] = [
+        ("abab", "bbbb"), // coordinator's case: "# abab" -> "# bbbb<block keep-sorted>bcc"
+        ("abbab", "bbbbbba"),
+        ("cacb", "abbaabbb"),
+        ("accacbc", "aabbbabbc"),
+        ("abab", "bb b"),
+        ("caabbbbcac", "bcbccccc"),
+        ("abbccacb", "bbbbbb"),
+        ("\u{e9} ab", "\u{e9} ab"),
+        ("a\u{e9}a\u{e9}", "\u{e9}a\u{e9}a\u{e9}"),
+    ];
+
+    fn pipeline_cases(unit: &str, closed: bool, cases: &mut u64) {
+        const TAG: &str = "<block keep-sorted>";
+        for (old_core, new_core) in PIPELINE_PAIRS {
+            for prefix in ["# ", "\u{e9} # "] {
+                let cuts: Vec<usize> = (0..=new_core.len()).filter(|k| new_core.is_char_boundary(*k)).collect();
+                for k in cuts {
+                    for tail in ["", "bcc", "X"] {
+                        let old_line = format!("{prefix}{old_core}");
+                        let new_line = format!("{prefix}{}{TAG}{}{tail}", &new_core[..k], &new_core[k..]);
+                        let (diff, lc) = pipeline_line_change(&old_line, &new_line);
+                        let lt = new_line.find('<').unwrap() + 1; // 1-based byte column of `<`
+                        let gt = new_line.find('>').unwrap() + 1;
+                        *cases += 1;
+                        let observed = if closed {
+                            Block::intersects_with_line_change_inclusive(&(Position::new(1, lt)..=Position::new(1, gt)), &lc)
+                        } else {
+                            // the single character `<` as a half-open content-like span
+                            Block::intersects_with_line_change(&(Position::new(1, lt)..Position::new(1, lt + 1)), &lc)
+                        };
+                        if !observed {
+                            cex_fail(
+                                unit,
+                                "a span made of characters that do not occur in the old line must be hit by the line change the diff reader produces for that line",
+                                json!({"diff_text": diff, "old_line": old_line, "new_line": new_line, "span_1based_byte_columns": if closed { json!({"start": lt, "end_inclusive": gt}) } else { json!({"start": lt, "end_exclusive": lt + 1}) }, "line_change": lc_json(&lc)}),
+                                json!(true),
+                                json!(false),
+                            );
+                        }
+                    }
+                }
+            }
+        }
+    }
+
     #[test]
     fn cex_B1() {
         let lists = wf_range_lists(MAX_COL);
@@ -142,7 +202,8 @@ mod verif_cex {
                 }
             }
         }
-        cex_none("B1", cases, "content spans with lines 1..=3 x characters 1..=5, line change on line 0..=4, ranges = None or every well-formed range list over columns 0..=7");
+        pipeline_cases("B1", false, &mut cases);
+        cex_none("B1", cases, "end-to-end: 9 old/new line pairs x 2 prefixes x a `<block keep-sorted>` tag inserted at every position x 3 tails, span = the `<` character; content spans with lines 1..=3 x characters 1..=5, line change on line 0..=4, ranges = None or every well-formed range list over columns 0..=7");
     }
 
     #[test]
@@ -169,7 +230,8 @@ mod verif_cex {
                 }
             }
         }
-        cex_none("B2", cases, "start-tag spans with lines 1..=3 x characters 1..=5, line change on line 0..=4, ranges = None or every well-formed range list over columns 0..=7");
+        pipeline_cases("B2", true, &mut cases);
+        cex_none("B2", cases, "end-to-end: 9 old/new line pairs x 2 prefixes x a `<block keep-sorted>` tag inserted at every position x 3 tails, span = `<`..`>`; start-tag spans with lines 1..=3 x characters 1..=5, line change on line 0..=4, ranges = None or every well-formed range list over columns 0..=7");
     }
 
     /// Strictly line-sorted lists of line changes (<= max_len entries over lines 1..=5), each entry
